@@ -149,7 +149,13 @@ def siblings(repo, res, rule="SIBLINGS"):
         res.check(has_tr and conj_only, rule, f"{rule}:{sh}:prefix-exit-needs-transition", "the exit requires a transition on that literal from the current state" if has_tr else "the exit fires for literals the current state does not expect (bash sibling requires the transition)", fn.loc())
 
 
+def _bash_printer_skips(repo, res):
+    from vlib import rules_skips as SK, tables
+    SK.skips_rule(repo, res, tables.load("skips")["row"], only={q for q in SK.printers(repo) if q.startswith("bash::")})
+
+
 def run(repo, res, tier):
+    _bash_printer_skips(repo, res)
     sortlen(repo, res)
     sk_bash.sub_rule(repo, res, tier)
     sk_bash.matchfn_rule(repo, res, tier)
